@@ -1573,8 +1573,15 @@ pub fn c19seq(a: &Args) -> Report {
             .map(|chunk| {
                 let (mut accepted, mut perms_run) = (0u64, 0u64);
                 let mut vs: Vec<Violation> = vec![];
-                for seq in chunk {
-                    let text = seq.iter().map(|t| alpha[*t]).collect::<Vec<_>>().join(" ");
+                // every sequence is written twice: with a blank between the tokens, and WITHOUT any (`"a",cb`,
+                // `callback=|lex| 1`, `priority=3,ignore(case)`): where one punctuation character directly
+                // follows another the compiler hands them over as joint tokens - how a list is spaced
+                // must not decide what it means, nor in which orders it is accepted
+                for (seq, glue) in chunk.iter().flat_map(|s| [(s, " "), (s, "")]) {
+                    let text = seq.iter().map(|t| alpha[*t]).collect::<Vec<_>>().join(glue);
+                    if glue.is_empty() && seq.len() < 2 {
+                        continue;
+                    }
                     let src = wrap(&text);
                     if src.parse::<proc_macro2::TokenStream>().is_err() {
                         continue;
@@ -1626,7 +1633,7 @@ pub fn c19seq(a: &Args) -> Report {
                     for p in permutations(&free).into_iter().skip(1) {
                         let mut list: Vec<String> = items[..fixed].to_vec();
                         list.extend(p);
-                        let src2 = wrap(&list.join(", "));
+                        let src2 = wrap(&list.join(if glue.is_empty() { "," } else { ", " }).replace(' ', glue));
                         perms_run += 1;
                         let g2 = vdrive::generate(&src2, false);
                         let out2 = g2.tokens.as_ref().map(|t| t.to_string());
